@@ -14,6 +14,7 @@
 package io
 
 import (
+	"strconv"
 	"time"
 
 	"github.com/modern-go/reflect2"
@@ -80,6 +81,14 @@ func (enc *Encoder) writeTime(t time.Time) {
 		t = t.Local()
 	}
 	year, month, day := t.Date()
+	if year < 0 || year > 9999 {
+		// the date has four digits for the year: such a time cannot be written
+		if enc.Error == nil {
+			enc.Error = UnsupportedTimeError{Year: year}
+		}
+		enc.WriteNil()
+		return
+	}
 	hour, min, sec := t.Clock()
 	nsec := t.Nanosecond()
 	if (hour == 0) && (min == 0) && (sec == 0) && (nsec == 0) {
@@ -95,6 +104,16 @@ func (enc *Encoder) writeTime(t time.Time) {
 		loc = TagUTC
 	}
 	enc.buf = append(enc.buf, loc)
+}
+
+// An UnsupportedTimeError is returned by Encoder when attempting
+// to encode a time whose year the format cannot hold.
+type UnsupportedTimeError struct {
+	Year int
+}
+
+func (e UnsupportedTimeError) Error() string {
+	return "hprose/io: unsupported time: year " + strconv.Itoa(e.Year) + " is outside 0..9999"
 }
 
 func init() {
